@@ -125,9 +125,13 @@ func (o *c17Op) atomic() bool {
 }
 
 type c17Hist struct {
-	Layout      string       `json:"layout"`  // plain | symfile | k8s
-	Decoder     string       `json:"decoder"` // json | yaml
-	Flavor      string       `json:"flavor"`
+	Layout  string `json:"layout"`  // plain | symfile | k8s
+	Decoder string `json:"decoder"` // json | yaml
+	Flavor  string `json:"flavor"`
+	// ReadMode: "" = the stock decoder (io.ReadAll); otherwise a harness decoder
+	// that drains its reader through io.Copy / io.WriterTo / io.ReaderAt and
+	// then delegates to the stock decoder (c17_readdec.go).
+	ReadMode    string       `json:"read_mode,omitempty"`
 	RelLink     bool         `json:"rel_link"`     // symfile: relative link target
 	EarlyCancel bool         `json:"early_cancel"` // cancel without waiting for convergence
 	Contents    []c17Content `json:"contents"`
@@ -587,6 +591,9 @@ func c17Generate(r *fw.Rand) *c17Hist {
 		h.Decoder = "yaml"
 	}
 	h.RelLink = r.Bool()
+	if r.Chance(30) {
+		h.ReadMode = fw.Pick(r, c17ReadModes)
+	}
 	// hook delay table (microseconds), indexed by the watcher's read count
 	h.DelaysUs = make([]int, 16)
 	if r.Chance(60) {
@@ -666,7 +673,7 @@ func c17Generate(r *fw.Rand) *c17Hist {
 // sequence of step kinds with their identical/malformed/atomic-create marks).
 func (h *c17Hist) signature() string {
 	var sb strings.Builder
-	sb.WriteString(h.Layout + "|" + h.Decoder + "|")
+	sb.WriteString(h.Layout + "|" + h.Decoder + "/" + h.ReadMode + "|")
 	for _, o := range h.Ops {
 		sb.WriteString(o.Kind)
 		if o.isContentOp() {
